@@ -1004,3 +1004,144 @@ pub fn tls_lazy_prog(s: &mut Src, max_threads: usize, max_ops: usize, atomics: b
     threads[0] = main;
     Program { threads, rx_owner: 0, arc_owner: vec![] }
 }
+
+// ---------------------------------------------------------------------------------
+// Arc / Track / alloc programs (C10, C11)
+// ---------------------------------------------------------------------------------
+
+#[derive(Clone, Debug, Default)]
+pub struct ArcParams {
+    /// inspection operations (strong_count, get_mut, try_unwrap)
+    pub inspect: bool,
+    /// leak paths (forget, into_raw without from_raw ...)
+    pub leaks: bool,
+    /// Track / alloc / channel objects as well
+    pub tracked: bool,
+    /// payload cell writes / reads by owners
+    pub cells: bool,
+    pub max_threads: usize,
+    pub max_ops: usize,
+}
+
+/// Programs over `loom::sync::Arc` handles (and optionally `Track`, raw allocations, messages).
+/// Handles reach other threads only by being cloned for them before they are spawned. A
+/// `try_unwrap` is always the last operation a thread performs on that Arc (its outcome decides
+/// whether the handle is consumed).
+pub fn arc_prog(s: &mut Src, p: &ArcParams) -> Program {
+    let k = s.range(1, p.max_threads.max(1));
+    let nth = k + 1;
+    let narcs = s.range(1, 2);
+    let mut threads: Vec<Vec<Op>> = vec![vec![]; nth];
+    // every arc starts in main; main clones for the children before spawning them
+    let mut handles = vec![vec![0usize; narcs]; nth];
+    let mut closed = vec![vec![false; narcs]; nth]; // after try_unwrap: no more ops on that arc
+    for x in 0..narcs {
+        handles[0][x] = 1;
+    }
+    let mut pre: Vec<Op> = vec![];
+    for t in 1..nth {
+        for x in 0..narcs {
+            if s.chance(2, 3) {
+                pre.push(Op::ArcClone { x: x as u8, to: t as u8 });
+                handles[t][x] += 1;
+            }
+        }
+    }
+    // main may give its own handle away completely (drop after cloning)
+    let total = s.range(2.min(p.max_ops), p.max_ops);
+    let mut track_new = [false; 2];
+    let mut alloc_new = [false; 2];
+    let mut made = 0;
+    let mut guard = 0;
+    while made < total && guard < 100 {
+        guard += 1;
+        let t = s.pick(nth);
+        if threads[t].len() >= 5 {
+            continue;
+        }
+        if p.tracked && s.chance(1, 3) {
+            let kx = s.pick(2);
+            let op = match s.pick(6) {
+                0 | 1 if !track_new[kx] => {
+                    track_new[kx] = true;
+                    Op::TrackNew { k: kx as u8 }
+                }
+                2 => Op::TrackDrop { k: kx as u8 },
+                3 if p.leaks => Op::TrackForget { k: kx as u8 },
+                4 if !alloc_new[kx] => {
+                    alloc_new[kx] = true;
+                    Op::Alloc { k: kx as u8 }
+                }
+                _ => Op::Dealloc { k: kx as u8 },
+            };
+            threads[t].push(op);
+            made += 1;
+            continue;
+        }
+        let x = s.pick(narcs);
+        if handles[t][x] == 0 || closed[t][x] {
+            continue;
+        }
+        let xb = x as u8;
+        let choice = s.pick(12);
+        let op = match choice {
+            0 | 1 => {
+                handles[t][x] += 1;
+                Op::ArcClone { x: xb, to: t as u8 }
+            }
+            2 | 3 if handles[t][x] >= 1 => {
+                handles[t][x] -= 1;
+                Op::ArcDrop { x: xb }
+            }
+            4 if p.inspect => Op::ArcCount { x: xb },
+            5 if p.inspect => Op::ArcGetMut { x: xb },
+            6 if p.inspect && handles[t][x] == 1 => {
+                closed[t][x] = true;
+                Op::ArcTryUnwrap { x: xb }
+            }
+            7 => Op::ArcRawRoundTrip { x: xb },
+            8 => {
+                handles[t][x] += 1;
+                Op::ArcIncStrong { x: xb }
+            }
+            9 => {
+                handles[t][x] -= 1;
+                Op::ArcDecStrong { x: xb }
+            }
+            10 if p.leaks => {
+                handles[t][x] -= 1;
+                Op::ArcForget { x: xb }
+            }
+            11 if p.cells => {
+                if s.chance(1, 2) {
+                    Op::ArcCellWrite { x: xb }
+                } else {
+                    Op::ArcCellRead { x: xb }
+                }
+            }
+            _ => {
+                if p.inspect {
+                    Op::ArcCount { x: xb }
+                } else {
+                    Op::ArcRawRoundTrip { x: xb }
+                }
+            }
+        };
+        threads[t].push(op);
+        made += 1;
+    }
+    // a handle-less thread must not touch the arc: by construction above. Main: pre-clones, spawns, body
+    let body = std::mem::take(&mut threads[0]);
+    let mut main = pre;
+    for t in 1..nth {
+        main.push(Op::Spawn { t: t as u8 });
+    }
+    main.extend(body);
+    if s.chance(1, 2) {
+        for t in 1..nth {
+            main.push(Op::Join { t: t as u8 });
+        }
+    }
+    threads[0] = main;
+    Program { threads, rx_owner: 0, arc_owner: vec![0; narcs] }
+}
